@@ -11,6 +11,7 @@ import Q1t.Proofs.TableauWitness
 import Q1t.Proofs.TableauContractQ8
 import Q1t.Proofs.TableauDetShape
 import Q1t.Proofs.TableauProgress
+import Q1t.Proofs.DetShapeAll
 /-!
 # C03 — stabilizer tableau semantics equal state-vector semantics
 
@@ -339,6 +340,61 @@ theorem stabHyps_partial (n : Nat)
   Q1t.Proofs.TabG.stabHyps n Q1t.Gen.phaseTable Q1t.Gen.conjTable Q1t.Gen.conjNoArityCheck Q8.lawful
     Q1t.Sim.Demo.lawfulSimQ8 phaseTable_correct Q1t.Proofs.ConjQ8.prims_exact_Q8
     Q1t.Proofs.TabG.tableFacts_generated hD (by decide) hpos half hhalf
+
+/-! ## `DetShapeHolds` discharged: the unconditional forms (generated tables, ℚ(ζ₈), every `n`)
+
+Proved in `Proofs/DetShapePlan.lean` (composition) from six parts, each in its own file: `Tab.new` (`DetShapePartIb`),
+`normalize` produces the reduced echelon shape (`DetShapePartN1*`) and keeps the ghost destabilizers
+(`DetShapePartN2b`), the row loop of `apply_gate` keeps them (`DetShapePartG`), so does `collapse` (`DetShapePartK`),
+and shape + destabilizers + commuting rows give `DetShape` by a pigeonhole counting argument over `ZMod 2`
+(`DetShapePartC2*`).  The `_partial` theorems above are kept unchanged; these are their hypothesis-free twins. -/
+
+/-- **In every reachable tableau, a column without X/Y holds exactly one `Z`, in a row that is `Z_q` alone** —
+all `n`, all histories of valid claiming gates, collapses after `Random` and resets. -/
+theorem det_shape_holds (n : Nat) :
+    Q1t.Proofs.TabG.DetShapeHolds (α := Q8) (A := Empty) n Q1t.Gen.phaseTable Q1t.Gen.conjTable
+      Q1t.Gen.conjNoArityCheck :=
+  Q1t.Proofs.DetPlan.detShapeHolds_generated n
+
+/-- **The tableau contract `Sim.TableauOK` of the stabilizer backend holds, all `n`, no hypothesis** — `init`,
+`scale`, `weight`, `gate`, `basis`, `det`, `rand`, `reset` with `St := Reach`, for the tables generated from /repo. -/
+theorem tableau_contract (n : Nat) :
+    Q1t.Sim.TableauOK
+      (Q1t.Proofs.TabG.Reach (A := Empty) Q8 n Q1t.Gen.phaseTable Q1t.Gen.conjTable Q1t.Gen.conjNoArityCheck) n
+      Q1t.Gen.phaseTable (Q1t.Proofs.TabG.conjOfT (A := Empty) Q1t.Gen.conjTable Q1t.Gen.conjNoArityCheck)
+      (Q1t.Proofs.TabG.validT (A := Empty) n Q1t.Gen.conjTable) :=
+  tableau_contract_partial n (det_shape_holds n)
+
+/-- **Every reachable pair is a stabilizer pair of invertible norm, all `n`, no hypothesis.** -/
+theorem reachable_sound_generated (n : Nat) (t : Tab) (ψ : List Q8)
+    (hr : Q1t.Proofs.TabG.Reach (A := Empty) Q8 n Q1t.Gen.phaseTable Q1t.Gen.conjTable Q1t.Gen.conjNoArityCheck t ψ) :
+    Q1t.Proofs.TabG.StabG Empty t ψ ∧ t.n = n ∧ ∃ u : Q8, Q1t.Sim.normSqSum ψ * u = 1 :=
+  Q1t.Proofs.TabG.reach_sound n Q1t.Gen.phaseTable Q1t.Gen.conjTable Q1t.Gen.conjNoArityCheck Q8.lawful
+    Q1t.Sim.Demo.lawfulSimQ8 phaseTable_correct Q1t.Proofs.ConjQ8.prims_exact_Q8
+    Q1t.Proofs.TabG.tableFacts_generated (det_shape_holds n) t ψ hr
+
+/-- **Deterministic outcomes are reported with the right value, all `n`**: on every reachable pair, if `measure(q)`
+reports `Deterministic(v)` then the state vector has all its weight on outcome `v` (`P_v ψ = ψ`); and `measure`
+always returns (the `.unwrap()` of the deterministic branch never fails). -/
+theorem measure_deterministic_sound (n : Nat) (t : Tab) (ψ : List Q8)
+    (hr : Q1t.Proofs.TabG.Reach (A := Empty) Q8 n Q1t.Gen.phaseTable Q1t.Gen.conjTable Q1t.Gen.conjNoArityCheck t ψ)
+    (q : Nat) (hq : q < n) :
+    (∃ info, t.measure q = .ok info) ∧
+    ∀ v, t.measure q = .ok (.deterministic v) → Q1t.Spec.project n q v ψ = ψ := by
+  obtain ⟨hst, hn, _⟩ := reachable_sound_generated n t ψ hr
+  exact ⟨Q1t.Proofs.TabG.measure_prog t (Q1t.Proofs.TabG.wf_of_stabG t ψ hst) (det_shape_holds n t ψ hr) q
+      (by rw [hn]; exact hq),
+    fun v hm => (tableau_contract n).det t ψ q v hr hm⟩
+
+/-- **C01's bundle `SimGF.StabHyps` without `DetShapeHolds`** (the positivity of the squared norm over ℚ(ζ₈) stays a
+parameter: it is a property of the amplitude type). -/
+theorem stabHyps_generated (n : Nat)
+    (hpos : ∀ v : List Q8, Q1t.Sim.normSqSum v = 0 → ∀ a ∈ v, a = 0) (half : Q8) (hhalf : half + half = 1) :
+    Q1t.Sim.SimGF.StabHyps Q8 Empty Q1t.Sim.Demo.nzQ8
+      (Q1t.Proofs.TabG.Reach (A := Empty) Q8 n Q1t.Gen.phaseTable Q1t.Gen.conjTable Q1t.Gen.conjNoArityCheck) n half
+      Q1t.Gen.phaseTable (Q1t.Proofs.TabG.conjOfT (A := Empty) Q1t.Gen.conjTable Q1t.Gen.conjNoArityCheck)
+      (Q1t.Proofs.TabG.validT (A := Empty) n Q1t.Gen.conjTable) :=
+  stabHyps_partial n (det_shape_holds n) hpos half hhalf
 
 /-! ## non-vacuity -/
 
